@@ -13,6 +13,7 @@ struct Profile {
 	// family weights
 	int w_ctor = 10, w_dtor = 3, w_assign = 10, w_move = 5, w_swap = 3, w_resize = 8, w_viewwrite = 10, w_read = 4, w_alloc_forms = 3, w_conv = 3, w_il = 3, w_save = 0, w_load = 0, w_mpi = 0;
 	bool faults_stream = false;
+	bool deep = false;
 	bool allow_overlap = false;  // generate overlapping same-root view assignments (differential C11 runs)
 	int fault_free_pct = 40;   // percentage of runs without any fault
 	bool faults_alloc = true, faults_elem = true;
@@ -20,9 +21,14 @@ struct Profile {
 	int  max_ops = 40;
 };
 
-inline Profile profile_by_name(std::string const& n) {
+inline Profile profile_by_name(std::string const& full) {
 	Profile p;
-	p.name = n;
+	p.name = full;
+	std::string n = full;
+	if(n.size() > 5 && n.compare(n.size() - 5, 5, "-deep") == 0) {  // thorough tier: longer histories, larger extents
+		n      = n.substr(0, n.size() - 5);
+		p.deep = true;
+	}
 	if(n == "value") { p.w_resize = 3; p.w_viewwrite = 4; p.w_ctor = 14; p.w_assign = 14; p.w_move = 8; p.w_swap = 5; p.fault_free_pct = 70; }
 	else if(n == "views") { p.w_viewwrite = 30; p.w_resize = 3; p.w_read = 6; p.fault_free_pct = 60; }
 	else if(n == "resize") { p.w_resize = 30; p.w_il = 8; p.w_viewwrite = 4; p.fault_free_pct = 70; }
@@ -35,6 +41,7 @@ inline Profile profile_by_name(std::string const& n) {
 	else if(n == "ser") { p.w_save = 14; p.w_load = 18; p.w_viewwrite = 5; p.w_resize = 6; p.w_ctor = 12; p.w_conv = 1; p.w_il = 1; p.faults_stream = true; p.fault_free_pct = 60; }
 	else if(n == "serfault") { p.w_save = 14; p.w_load = 18; p.w_viewwrite = 5; p.w_resize = 6; p.w_ctor = 12; p.w_conv = 1; p.w_il = 1; p.faults_stream = true; p.fault_free_pct = 0; }
 	else if(n == "sernofault") { p.w_save = 14; p.w_load = 18; p.w_viewwrite = 5; p.w_resize = 6; p.w_ctor = 12; p.w_conv = 1; p.w_il = 1; p.fault_free_pct = 100; }
+	if(p.deep) p.max_ops = 80;
 	return p;
 }
 
@@ -526,7 +533,7 @@ struct Gen {
 		Plan p;
 		p.knobs.reuse = rng.chance(1, 2);
 		if(T.serialization) p.knobs.chunk_r = std::vector<int>{0, 1, 1, 2, 3, 7, 64}[static_cast<std::size_t>(rng.below(7))];
-		maxext        = std::vector<int>{1, 2, 2, 3, 3, 3, 4, 4}[static_cast<std::size_t>(rng.below(8))];
+		maxext        = P.deep ? std::vector<int>{2, 3, 4, 4, 5, 5, 6, 6}[static_cast<std::size_t>(rng.below(8))] : std::vector<int>{1, 2, 2, 3, 3, 3, 4, 4}[static_cast<std::size_t>(rng.below(8))];
 		narena        = rng.range(1, P.max_arenas);
 		bool const fault_free = rng.below(100) < P.fault_free_pct;
 		pfault        = fault_free ? 0 : std::vector<int>{5, 15, 40}[static_cast<std::size_t>(rng.below(3))];
@@ -556,6 +563,7 @@ struct Gen {
 			else if(r < 70) nops = rng.range(5, 14);
 			else if(r < 93) nops = rng.range(15, 25);
 			else nops = rng.range(26, P.max_ops);
+			if(P.deep && rng.chance(1, 2)) nops = rng.range(20, P.max_ops);
 		}
 		// swarm: disable a random subset of families for this run
 		std::vector<int> w = {P.w_ctor, P.w_dtor, P.w_assign, P.w_move, P.w_swap, P.w_resize, P.w_viewwrite, P.w_read, P.w_alloc_forms, P.w_conv, P.w_il, T.serialization ? P.w_save : 0, T.serialization ? P.w_load : 0, T.mpi ? P.w_mpi : 0};
